@@ -132,6 +132,12 @@ func c03Check(c c03Case) vfResult {
 			return r
 		}
 	}
+	if len(c.Exts) == 0 && !c.OnResult {
+		if err := vfRoutes(x, c.Limit, m); err != nil {
+			r.Err = fmt.Errorf("%v; x=%s", err, vfQ(x))
+			return r
+		}
+	}
 	// non-trivial: depth >= 2 below the root, or two siblings accept at some level
 	h := vfHeader(x, c.Limit)
 	multi := false
